@@ -95,6 +95,7 @@ def search(rep: C.Report, tier: str, broken):
     sizes = [(6, 3), (8, 5)] if tier == "quick" else [(6, 3), (8, 5), (12, 5), (10, 7)]
     for (M, N), npart in itertools.product(sizes, (1, 2)):
         ref = {}
+        shared_bg = None          # ONE background object handed to all four basis combinations (as a user comparing bases would)
         for bM, bN in BASES:
             solver, grid, parts, clean = B.make_solver(M=M, N=N, basisM=bM, basisN=bN, nparticles=npart, stats=("Fermion", "Boson"),
                                                        y2=(0.3, 0.7), seed=7)
@@ -122,6 +123,30 @@ def search(rep: C.Report, tier: str, broken):
                     deltas = solver.getDeltas(dF).Deltas
                     cur = (card, np.array([deltas.Delta00.coefficients, deltas.Delta02.coefficients, deltas.Delta20.coefficients,
                                            deltas.Delta11.coefficients]))
+                    if kind == "all":
+                        # the same background OBJECT used again (by this solver, and by the solvers of the other bases before it): the result must
+                        # be the one of a fresh background, and the caller's object must not have been modified
+                        if shared_bg is None:
+                            shared_bg = B.background(grid, **kw)
+                            shared_before = (np.array(shared_bg.velocityProfile, copy=True), np.array(shared_bg.temperatureProfile, copy=True),
+                                             np.array(shared_bg.fieldProfiles, copy=True), float(shared_bg.velocityWall), float(shared_bg.velocityMid))
+                        for rep_ in (1, 2):
+                            solver.setBackground(shared_bg)
+                            dFs = solver.solveBoltzmannEquations()
+                            rep.case(key=("shared-background", M, N, npart, bM, bN, rep_))
+                            rep.count("shared background solves")
+                            es = np.max(np.abs(dFs - dF)) / (np.max(np.abs(dF)) + 1e-300)
+                            changed = max(float(np.max(np.abs(np.asarray(shared_bg.velocityProfile) - shared_before[0]))),
+                                          float(np.max(np.abs(np.asarray(shared_bg.temperatureProfile) - shared_before[1]))),
+                                          float(np.max(np.abs(np.asarray(shared_bg.fieldProfiles) - shared_before[2]))),
+                                          abs(float(shared_bg.velocityWall) - shared_before[3]), abs(float(shared_bg.velocityMid) - shared_before[4]))
+                            if es > 1e-10 or changed > 0:
+                                rep.violation("solving with a background object that was used before (other basis / same solver) differs from solving with a "
+                                              "fresh copy of it, or setBackground modified the caller's background",
+                                              {"M": M, "N": N, "particles": npart, "basis": [bM, bN], "use_number_on_this_solver": rep_,
+                                               "rel_diff_deltaF_vs_fresh_background": float(es), "max_change_of_callers_background": changed},
+                                              finding_key="C12:background-reuse")
+                                break
                     if kind not in ref:
                         ref[kind] = (cur, (bM, bN))
                     else:
